@@ -52,6 +52,9 @@ pub trait Workload {
     /// JSON text describing case idx without touching the engine (used to name the case a
     /// crashed or hung worker was executing)
     fn describe(&mut self, _idx: u64) -> String { String::new() }
+    /// true for a case that legitimately runs for many seconds (the supervisor then allows it ten
+    /// times the usual time without progress before it treats the worker as hung)
+    fn slow_case(&self, _idx: u64) -> bool { false }
     /// rule text for the evidence file
     fn rule(&self) -> String;
     /// true if the enumerated (non-random) part was covered completely by `total`
@@ -173,6 +176,7 @@ impl Workload for Compose {
     fn total(&self) -> u64 { self.parts.iter().map(|p| p.total()).sum() }
     fn run(&mut self, idx: u64) -> Outcome { let (k, i) = self.locate(idx); self.parts[k].run(i) }
     fn describe(&mut self, idx: u64) -> String { let (k, i) = self.locate(idx); self.parts[k].describe(i) }
+    fn slow_case(&self, idx: u64) -> bool { let (k, i) = self.locate(idx); self.parts[k].slow_case(i) }
     fn rule(&self) -> String { self.parts.iter().enumerate().map(|(i, p)| format!("part {}: {}", i + 1, p.rule())).collect::<Vec<_>>().join(" || ") }
     fn exhaustive_part(&self) -> Option<String> {
         let v: Vec<String> = self.parts.iter().filter_map(|p| p.exhaustive_part()).collect();
